@@ -9,6 +9,9 @@ Structural clauses decided:
  R4 the drop / dispatch counters are written only by `dispatch`
  R5 `stats` reports exactly those counters
  R6 a worker never takes a packet off its queue without pushing it to the batch / processing it (queued => analysed)
+ R2 (also) the whole-frame fallback hash is taken only when the frame is strictly shorter than the header or the IP version is unknown;
+    the per-version helpers are handed the frame without its link header
+ R6 (also) every round empties the batch it processed, in arrival order
 """
 from ..engine import paths as PA
 from ..engine import q as Q
